@@ -303,7 +303,9 @@ func C14(tier string) int {
 		maxLen = 5
 	}
 	for _, v := range keys {
-		alpha := []cbSpec{{v, nil}, {v, errA}}
+		// (a callback may itself return one of the library's "unmatched" sentinels, e.g. from a nested resolver:
+		// it is that callback's error and comes back unchanged, nothing further is invoked)
+		alpha := []cbSpec{{v, nil}, {v, errA}, {v, streams.ErrNoCallbackMatch}}
 		pick := func(cands []string) {
 			for _, c := range cands {
 				if c != v {
@@ -412,33 +414,38 @@ func C14(tier string) int {
 		} else if t == nil || t.GetTypeName() != o.Types[own].Name {
 			res.Violate("type-array-own-type|ToType", fmt.Sprintf("type %v: ToType returned %v (%v), expected a %s", arr, t, err, own), rep)
 		}
-		for _, set := range cbSets {
-			var specs []cbSpec
-			for _, k := range set {
-				specs = append(specs, cbSpec{k, nil})
-			}
-			log := &cbLog{}
-			var cbs []interface{}
-			for i, s := range specs {
-				cbs = append(cbs, mkCallback(log, i, bind.Type(s.key), s.err))
-			}
-			r, err := streams.NewJSONResolver(cbs...)
-			if err != nil {
-				continue
-			}
-			rerr := r.Resolve(ctx, doc)
-			res.Case(fmt.Sprintf("typearray|%s|%v", strings.Join(arr, ","), set))
-			wantIdx := -1
-			if own != "" {
-				wantIdx, _ = expectCall(own, specs)
-			}
-			rep := M{"check": "C14", "type_member": arr, "callbacks": set}
-			if wantIdx < 0 {
-				if len(log.calls) != 0 || !streams.IsUnmatchedErr(rerr) {
-					res.Violate("type-array|invoked-or-not-unmatched", fmt.Sprintf("type %v, callbacks %v: invoked %v, err %v; the value's own type is %q and has no callback", arr, set, log.calls, rerr, own), rep)
+		for _, cbErr := range []error{nil, streams.ErrNoCallbackMatch, streams.ErrPredicateUnmatched, streams.ErrUnhandledType} {
+			for _, set := range cbSets {
+				if cbErr != nil && len(arr) > 3 {
+					continue
 				}
-			} else if len(log.calls) != 1 || log.calls[0].idx != wantIdx || rerr != nil {
-				res.Violate("type-array|wrong-callback", fmt.Sprintf("type %v, callbacks %v: invoked %v, err %v; expected callback #%d (%s)", arr, set, log.calls, rerr, wantIdx, own), rep)
+				var specs []cbSpec
+				for _, k := range set {
+					specs = append(specs, cbSpec{k, cbErr})
+				}
+				log := &cbLog{}
+				var cbs []interface{}
+				for i, s := range specs {
+					cbs = append(cbs, mkCallback(log, i, bind.Type(s.key), s.err))
+				}
+				r, err := streams.NewJSONResolver(cbs...)
+				if err != nil {
+					continue
+				}
+				rerr := r.Resolve(ctx, doc)
+				res.Case(fmt.Sprintf("typearray|%s|%v", strings.Join(arr, ","), set))
+				wantIdx := -1
+				if own != "" {
+					wantIdx, _ = expectCall(own, specs)
+				}
+				rep := M{"check": "C14", "type_member": arr, "callbacks": set}
+				if wantIdx < 0 {
+					if len(log.calls) != 0 || !streams.IsUnmatchedErr(rerr) {
+						res.Violate("type-array|invoked-or-not-unmatched", fmt.Sprintf("type %v, callbacks %v: invoked %v, err %v; the value's own type is %q and has no callback", arr, set, log.calls, rerr, own), rep)
+					}
+				} else if len(log.calls) != 1 || log.calls[0].idx != wantIdx || rerr != cbErr {
+					res.Violate("type-array|wrong-callback", fmt.Sprintf("type %v, callbacks %v returning %v: invoked %v, err %v; expected exactly callback #%d (%s) and its error", arr, set, cbErr, log.calls, rerr, wantIdx, own), rep)
+				}
 			}
 		}
 	}
@@ -571,7 +578,7 @@ func C14(tier string) int {
 	}
 
 	res.Extra["types"] = len(keys)
-	res.Rule = fmt.Sprintf("(1) all %d x %d (value type, callback type) pairs for JSONResolver, TypeResolver and TypePredicatedResolver (predicate outcomes (true,nil),(false,nil),(false,err),(true,err); and a passing own-type predicate in front of a delegate that has no callback for the type); (1c) one JSONResolver / TypeResolver value reused for a sequence of 7 values of different types; (2) for every value type all callback lists of length 0..%d over {own, own returning an error, a parent, a child, a sibling, a similarly named foreign type, a foreign type}; (3) all 'type' arrays of length 1..4 over {Note, Person, Emoji, an unknown name, an unknown prefixed name} x 6 callback sets, with ToType as cross-check; (3a) 12 'type' members that name no type (empty array, arrays of non-strings, number, null, object, boolean, empty string, wrong case): nothing invoked, unmatched error; (3b) every type written under 12 @context / type spellings (own vocabulary URI, the same with the other of http / https, in a list, aliased {URI: alias} alone / in a list / after another alias map / with a type array, also one whose other entries - before, after, around it - name no known type) through JSONResolver and ToType; (4) 13 wrong constructor shapes x 3 constructors; callbacks are manufactured with reflect.MakeFunc from the ontology-derived binding table; oracle: exactly the first own-type callback is invoked and its error returned by identity, else nothing is invoked and IsUnmatchedErr holds", len(keys), len(keys), maxLen)
+	res.Rule = fmt.Sprintf("(1) all %d x %d (value type, callback type) pairs for JSONResolver, TypeResolver and TypePredicatedResolver (predicate outcomes (true,nil),(false,nil),(false,err),(true,err); and a passing own-type predicate in front of a delegate that has no callback for the type); (1c) one JSONResolver / TypeResolver value reused for a sequence of 7 values of different types; (2) for every value type all callback lists of length 0..%d over {own, own returning an error, own returning ErrNoCallbackMatch, a parent, a child, a sibling, a similarly named foreign type, a foreign type}; (3) all 'type' arrays of length 1..4 over {Note, Person, Emoji, an unknown name, an unknown prefixed name} x 6 callback sets (callbacks returning nil or one of the library's own unmatched sentinels, which must come back unchanged with nothing further invoked), with ToType as cross-check; (3a) 12 'type' members that name no type (empty array, arrays of non-strings, number, null, object, boolean, empty string, wrong case): nothing invoked, unmatched error; (3b) every type written under 12 @context / type spellings (own vocabulary URI, the same with the other of http / https, in a list, aliased {URI: alias} alone / in a list / after another alias map / with a type array, also one whose other entries - before, after, around it - name no known type) through JSONResolver and ToType; (4) 13 wrong constructor shapes x 3 constructors; callbacks are manufactured with reflect.MakeFunc from the ontology-derived binding table; oracle: exactly the first own-type callback is invoked and its error returned by identity, else nothing is invoked and IsUnmatchedErr holds", len(keys), len(keys), maxLen)
 	res.Assumptions = []string{"for a multi-valued 'type' the value's own type is the first entry that names a known type (ToType is required to agree)"}
 	return res.Finish()
 }
